@@ -8,7 +8,7 @@ from ..core import AnalysisError, norm, calls_in, call_name, last_attr, walk_no_
 from ..consteval import Env, fold, try_fold, Unknown, fold_module_sequence, FuncRef, module_env
 from ..absint import Iv, Bytes, DataView, Evaluator, Top, ShortRead, run_paths
 from ..fmt import code_range, sstruct_parse
-from ..cfg import guard_conditions
+from ..cfg import guard_conditions, CFG, implied_conditions, implied_atoms, upper_bound, flag_state
 
 
 def _covers(parts, lo, hi):
@@ -406,16 +406,28 @@ def f5_points(ctx, repo):
     brk = [norm(n.test) for n in ast.walk(w.node) if isinstance(n, ast.If) and any(isinstance(x, ast.Break) for x in n.body)]
     okbr = brk == ["useByteEncoding and (delta > 255 or delta < 0)"]
     ctx.ob("F5-points", w.where, "byte run is broken when a delta leaves the byte range: " + " ; ".join(brk), okbr, "" if okbr else "run-break condition does not complement the byte guard")
-    tcs = {}
-    for n in ast.walk(r.node):
-        if isinstance(n, ast.If) and "POINTS_ARE_WORDS" in norm(n.test) and "runHeader" in norm(n.test):
-            for side, body in (("words", n.body), ("bytes", n.orelse)):
-                tc = [try_fold(c.args[0]) for st in body for c in calls_in(st) if call_name(c) == "array.array"]
-                sz = [norm(st.value) for st in body if isinstance(st, ast.Assign) and norm(st.targets[0]) == "pointsSize"]
-                tcs[side] = (tc, sz)
+    # which typecode / size belongs to which state of the POINTS_ARE_WORDS bit: from the conditions that hold on every
+    # path to the statement (arm order, negation and != 0 / == 0 spelling do not matter)
+    tcs = {"words": ([], []), "bytes": ([], [])}
+    gr = CFG(r.node)
+    for st in walk_no_nested(r.node):
+        if not isinstance(st, ast.Assign):
+            continue
+        tc = [try_fold(c.args[0]) for c in calls_in(st) if call_name(c) == "array.array" and c.args]
+        sz = [norm(st.value)] if norm(st.targets[0]) == "pointsSize" else []
+        if not tc and not sz:
+            continue
+        fs = flag_state(implied_conditions(gr, st), "POINTS_ARE_WORDS")
+        side = {True: "words", False: "bytes"}.get(fs)
+        if side is None:
+            tcs.setdefault("unguarded", ([], []))
+            side = "unguarded"
+        tcs[side][0].extend(tc)
+        tcs[side][1].extend(sz)
     okt = tcs.get("words") == (["H"], ["numPointsInRun * 2"]) and tcs.get("bytes") == (["B"], ["numPointsInRun"])
     ctx.ob("F5-points", r.where, f"reader typecodes/sizes {tcs}", okt, "" if okt else "reader array typecode or size per flag is wrong")
-    wwords = sorted(norm(c.args[0]) for n in ast.walk(w.node) if isinstance(n, ast.If) and norm(n.test) == "useByteEncoding" for st in n.orelse for c in calls_in(st) if norm(c.func) == "result.append")
+    gw = CFG(w.node)
+    wwords = sorted(norm(c.args[0]) for st in walk_no_nested(w.node) if isinstance(st, ast.Expr) for c in calls_in(st) if norm(c.func) == "result.append" and c.args and ("useByteEncoding", False) in implied_conditions(gw, st))
     okw = wwords == ["delta & 255", "delta >> 8"]
     ctx.ob("F5-points", w.where, "word run emits " + ", ".join(wwords), okw, "" if okw else "word encoding is not big-endian (delta>>8, delta&0xFF)")
 
@@ -516,7 +528,7 @@ def f5_deltas(ctx, repo):
         # dispatcher guards
         calls = [c for c in calls_in(cd.node) if last_attr(c) == fname]
         for c in calls:
-            from ..cfg import guard_conditions
+            from ..cfg import guard_conditions, CFG, implied_conditions, implied_atoms, upper_bound, flag_state
 
             gs = [t for t, pol in guard_conditions(c) if pol and isinstance(t, ast.Compare) and len(t.ops) >= 2]
             gv = [(try_fold(t.left, cenv), try_fold(t.comparators[-1], cenv)) for t in gs]
@@ -833,50 +845,64 @@ def f5_halved_offsets(ctx, repo):
         mod = repo.mod(rel)
         w, r = mod.func(wq), mod.func(rq)
         cenv = module_env(repo, mod)
-        top = next((st for st in walk_no_nested(w.node) if isinstance(st, ast.If) and any(isinstance(c, ast.Call) and call_name(c) == "array.array" for b in st.body for c in ast.walk(b))), None)
-        if top is None:
-            raise AnalysisError(f"{rel}:{wq}: short/long branch not found")
-        # upper bound admitted on the short arm
+        # the statement that builds the short (uint16) array and the one that builds the long one, whichever arm they are in
+        gw = CFG(w.node)
+        arr = {}
+        for st in walk_no_nested(w.node):
+            if isinstance(st, ast.Assign):
+                for c in calls_in(st):
+                    if call_name(c) == "array.array" and c.args:
+                        arr.setdefault(try_fold(c.args[0], cenv), []).append(st)
+        if not arr.get("H") and not arr.get("I"):
+            raise AnalysisError(f"{rel}:{wq}: short/long arrays not found")
+        codes_w = sorted(k for k in arr if isinstance(k, str))
+        S = arr.get("H", [None])[0]
+        L = arr.get("I", [None])[0]
+        atoms = implied_atoms(gw, S) if S is not None else []
+        short_facts = implied_conditions(gw, S) if S is not None else set()
+        long_facts = implied_conditions(gw, L) if L is not None else set()
+        # upper bound admitted where the short array is built
         lim = None
-        for c in ast.walk(top.test):
-            if isinstance(c, ast.Compare) and len(c.ops) == 1 and isinstance(c.ops[0], (ast.Lt, ast.LtE)):
-                k = try_fold(c.comparators[0], cenv)
-                if isinstance(k, int) and k > 255:
-                    lim = k - 1 if isinstance(c.ops[0], ast.Lt) else k
-        # divisor used on the short arm
+        for t, pol in atoms:
+            if isinstance(t, ast.Compare) and len(t.ops) == 1:
+                for side, other in ((t.left, t.comparators[0]), (t.comparators[0], t.left)):
+                    k = try_fold(other, cenv)
+                    if isinstance(k, int) and k > 255:
+                        ub = upper_bound(atoms, norm(side), lambda e: try_fold(e, cenv))
+                        if ub is not None:
+                            lim = ub
+        # divisor used for the short array
         div = None
-        for b in top.body:
-            for n in ast.walk(b):
-                if isinstance(n, ast.BinOp) and isinstance(n.op, ast.FloorDiv) and isinstance(n.right, ast.Constant):
-                    div = n.right.value
-                elif isinstance(n, ast.BinOp) and isinstance(n.op, ast.RShift) and isinstance(n.right, ast.Constant):
-                    div = 1 << n.right.value
-        codes_w = [try_fold(c.args[0], cenv) for arm in (top.body, top.orelse) for b in arm for c in ast.walk(b) if isinstance(c, ast.Call) and call_name(c) == "array.array" and c.args]
-        ok = lim is not None and div is not None and lim // div <= 0xFFFF and codes_w[:2] == ["H", "I"]
-        ctx.ob("F5-half", w.where, f"short arm admits offsets <= {lim}, stores offset/{div} in array {codes_w[:1]}, long arm {codes_w[1:2]}", ok, "" if ok else f"offset {lim} / {div} does not fit a uint16 (or typecodes changed)")
+        for n in ast.walk(w.node):
+            if isinstance(n, ast.BinOp) and isinstance(n.op, ast.FloorDiv) and isinstance(try_fold(n.right, cenv), int):
+                div = try_fold(n.right, cenv)
+            elif isinstance(n, ast.BinOp) and isinstance(n.op, ast.RShift) and isinstance(try_fold(n.right, cenv), int):
+                div = 1 << try_fold(n.right, cenv)
+        ok = lim is not None and div is not None and lim // div <= 0xFFFF and codes_w == ["H", "I"] and bool(short_facts) and short_facts != long_facts
+        ctx.ob("F5-half", w.where, f"short array built under {sorted(short_facts)}: offsets <= {lim}, stores offset/{div}; array typecodes {codes_w}", ok, "" if ok else f"offset {lim} / {div} does not fit a uint16 (or typecodes changed)")
         # reader factor
         mul = None
         for n in ast.walk(r.node):
             if isinstance(n, ast.BinOp) and isinstance(n.op, ast.Mult):
                 for a, b in ((n.left, n.right), (n.right, n.left)):
-                    if isinstance(a, ast.Constant) and isinstance(a.value, int) and isinstance(b, ast.Name):
-                        mul = a.value
+                    if isinstance(try_fold(a, cenv), int) and not isinstance(try_fold(a, cenv), bool) and isinstance(b, ast.Name) and not isinstance(try_fold(b, cenv), int):
+                        mul = try_fold(a, cenv)
         ok = mul is not None and mul == div
         ctx.ob("F5-half", r.where, f"reader multiplies short offsets by {mul}", ok, "" if ok else f"writer divides by {div}")
         if rel.endswith("_l_o_c_a.py"):
-            ev = [n for n in ast.walk(top.test) if isinstance(n, ast.Call) and call_name(n) == "all" and n.args and isinstance(n.args[0], (ast.GeneratorExp, ast.ListComp))]
             ok = False
-            if ev:
-                g = ev[0].args[0]
-                it = norm(g.generators[0].iter)
-                elt = norm(g.elt)
-                ok = it == "self.locations" and "% 2" in elt and "== 0" in elt
+            for t, pol in atoms:
+                if pol and isinstance(t, ast.Call) and call_name(t) == "all" and t.args and isinstance(t.args[0], (ast.GeneratorExp, ast.ListComp)):
+                    g = t.args[0]
+                    it = norm(g.generators[0].iter)
+                    elt = norm(g.elt)
+                    ok = ok or (it == "self.locations" and "% 2" in elt and "== 0" in elt)
             ctx.ob("F5-half", w.where, "short loca only when all(l % 2 == 0 for l in self.locations)", ok, "" if ok else "an odd intermediate offset is floored: loca no longer points at the glyph")
-            fm = [norm(st) for st in walk_no_nested(w.node) if isinstance(st, ast.Assign) and "indexToLocFormat" in norm(st.targets[0])]
-            short = [norm(st) for b in top.body for st in ast.walk(b) if isinstance(st, ast.Assign) and "indexToLocFormat" in norm(st.targets[0])]
-            long_ = [norm(st) for b in top.orelse for st in ast.walk(b) if isinstance(st, ast.Assign) and "indexToLocFormat" in norm(st.targets[0])]
-            ok = len(short) == 1 and short[0].endswith("= 0") and len(long_) == 1 and long_[0].endswith("= 1")
-            ctx.ob("F5-half", w.where, f"head.indexToLocFormat: short arm {short}, long arm {long_}", ok)
+            fm = [st for st in walk_no_nested(w.node) if isinstance(st, ast.Assign) and "indexToLocFormat" in norm(st.targets[0])]
+            short = [norm(st) for st in fm if implied_conditions(gw, st) == short_facts]
+            long_ = [norm(st) for st in fm if implied_conditions(gw, st) == long_facts]
+            ok = len(short) == 1 and try_fold(fm[[norm(x) for x in fm].index(short[0])].value, cenv) == 0 and len(long_) == 1 and try_fold(fm[[norm(x) for x in fm].index(long_[0])].value, cenv) == 1
+            ctx.ob("F5-half", w.where, f"head.indexToLocFormat: with the short array {short}, with the long array {long_}", ok)
     tv = repo.mod("ttLib/tables/TupleVariation.py")
     f = tv.func("compileSharedTuples")
     cenv = module_env(repo, tv)
@@ -1061,17 +1087,40 @@ def sparse_bit_set(ctx, repo):
     rd, wr = mod.func("_InputBitStream.next"), mod.func("_OutputBitStream.write")
 
     def arms(fn):
+        """per branch-factor class: (shift constants, index advances, sub-byte wrap bound), each statement being attributed to
+        a class by the conditions on self.branchFactor that hold on every path to it (if/elif chain, early returns and
+        guard clauses, local aliases all give the same attribution)"""
+        from ..core import inline_locals
+
+        g = CFG(fn.node)
         out = {}
-        node = next((st for st in fn.node.body if isinstance(st, ast.If)), None)
-        while node is not None:
-            key = norm(node.test)
-            body = ast.Module(body=node.body, type_ignores=[])
-            c = _consts(body, ("rshift", "lshift", "and"))
-            aug = sorted(norm(st.value) for st in ast.walk(body) if isinstance(st, ast.AugAssign) and isinstance(st.op, ast.Add) and norm(st.target).endswith(("subIndex", "byteIndex")))
-            wrap = sorted(try_fold(n.comparators[0]) for n in ast.walk(body) if isinstance(n, ast.Compare) and norm(n.left).endswith("subIndex") and isinstance(n.ops[0], ast.GtE))
-            out[key] = (sorted(set(c["rshift"] + c["lshift"])), aug, wrap)
-            node = node.orelse[0] if len(node.orelse) == 1 and isinstance(node.orelse[0], ast.If) else None
-        return out
+
+        def il(e):
+            return norm(inline_locals(fn.node, e))
+
+        for st in walk_no_nested(fn.node):
+            if not isinstance(st, ast.stmt) or isinstance(st, (ast.FunctionDef, ast.ClassDef)):
+                continue
+            key = None
+            for t, pol in implied_atoms(g, st):
+                if pol and isinstance(t, ast.Compare) and len(t.ops) == 1 and il(t.left) == "self.branchFactor" and isinstance(t.ops[0], (ast.In, ast.Eq)):
+                    key = f"self.branchFactor {'in' if isinstance(t.ops[0], ast.In) else '=='} {norm(t.comparators[0])}"
+            if key is None:
+                continue
+            sh, aug, wrap = out.setdefault(key, ([], [], []))
+            part = st.test if isinstance(st, (ast.If, ast.While)) else st
+            if isinstance(st, (ast.For, ast.With, ast.Try)):
+                continue
+            c = _consts(part, ("rshift", "lshift", "and"))
+            sh.extend(c["rshift"] + c["lshift"])
+            if isinstance(st, ast.AugAssign) and isinstance(st.op, ast.Add) and norm(st.target).endswith(("subIndex", "byteIndex")):
+                aug.append(il(st.value))
+            elif isinstance(st, ast.Assign) and norm(st.targets[0]).endswith(("subIndex", "byteIndex")) and isinstance(st.value, ast.BinOp) and isinstance(st.value.op, ast.Add) and il(st.value.left) == norm(st.targets[0]):
+                aug.append(il(st.value.right))  # x = alias_of_x + n
+            for n in ast.walk(part):
+                if isinstance(n, ast.Compare) and il(n.left).endswith("subIndex") and isinstance(n.ops[0], ast.GtE):
+                    wrap.append(try_fold(n.comparators[0]))
+        return {k: (sorted(set(v[0])), sorted(v[1]), sorted(v[2])) for k, v in out.items()}
 
     ra, wa = arms(rd), arms(wr)
     ok = set(ra) == set(wa) and len(ra) == 3
@@ -1086,7 +1135,45 @@ def sparse_bit_set(ctx, repo):
         else:
             ok = raug == ["1", "self.branchFactor"] and waug == ["self.branchFactor"] and rwrap == [8] and wwrap == [8]
             ctx.ob("SBS", wr.where, f"{key}: sub-byte nodes advance by the branch factor and wrap at {rwrap}/{wwrap}", ok)
-    masks = [norm(st.value) for fn in (rd, wr) for st in ast.walk(fn.node) if isinstance(st, ast.Assign) and norm(st.targets[0]) == "mask"]
+    # byte order of the 32-bit node: the writer appends value >> 0, 8, 16, 24 in that order; the reader or-s data[i + k] << 8k
+    gw_, gr_ = CFG(wr.node), CFG(rd.node)
+
+    def in32(g, fn, st):
+        from ..core import inline_locals
+
+        return any(pol and isinstance(t, ast.Compare) and len(t.ops) == 1 and isinstance(t.ops[0], ast.Eq) and norm(inline_locals(fn.node, t.left)) == "self.branchFactor" and try_fold(t.comparators[0]) == 32 for t, pol in implied_atoms(g, st))
+
+    wseq = []
+    for st in sorted((x for x in walk_no_nested(wr.node) if isinstance(x, ast.Expr) and isinstance(x.value, ast.Call) and last_attr(x.value) == "append" and x.value.args), key=lambda x: (x.lineno, x.col_offset)):
+        if in32(gw_, wr, st):
+            c = _consts(st.value.args[0], ("rshift",))["rshift"]
+            wseq.append(c[0] if c else 0)
+    rpairs = set()
+    for st in walk_no_nested(rd.node):
+        if isinstance(st, ast.Assign) and isinstance(st.value, ast.BinOp) and isinstance(st.value.op, ast.BitOr) and in32(gr_, rd, st):
+            terms = []
+
+            def flat_or(e):
+                if isinstance(e, ast.BinOp) and isinstance(e.op, ast.BitOr):
+                    flat_or(e.left)
+                    flat_or(e.right)
+                else:
+                    terms.append(e)
+
+            flat_or(st.value)
+            for t in terms:
+                sh = 0
+                if isinstance(t, ast.BinOp) and isinstance(t.op, ast.LShift):
+                    sh, t = try_fold(t.right), t.left
+                if isinstance(t, ast.Subscript):
+                    ix = t.slice
+                    off = try_fold(ix.right) if isinstance(ix, ast.BinOp) and isinstance(ix.op, ast.Add) else 0
+                    rpairs.add((off, sh))
+    ok = wseq == [0, 8, 16, 24] and rpairs == {(0, 0), (1, 8), (2, 16), (3, 24)}
+    ctx.ob("SBS", wr.where, f"32-bit node byte order: writer appends shifts {wseq}; reader combines (offset, shift) {sorted(rpairs, key=str)}", ok, "" if ok else "the four bytes of a 32-bit node are not written and read in the same little-endian order")
+    from ..core import inline_locals as _il2
+
+    masks = [norm(_il2(fn.node, st.value)) for fn in (rd, wr) for st in ast.walk(fn.node) if isinstance(st, ast.Assign) and norm(st.targets[0]) == "mask"]
     ctx.ob("SBS", rd.where, f"node mask on both sides: {masks}", masks == ["(1 << self.branchFactor) - 1"] * 2)
 
 
@@ -1229,23 +1316,28 @@ def f22_eexec(ctx, repo):
     mod = repo.mod("misc/eexec.py")
     d, e = mod.func("_decryptChar"), mod.func("_encryptChar")
 
-    def parts(f):
-        a = {}
-        for st in f.node.body:
-            if isinstance(st, ast.Assign):
-                a[norm(st.targets[0])] = norm(st.value)
-        return a
+    # symbolic summaries over canonical parameter names (b = input byte string, K = key): local names, temporaries,
+    # extracted helpers and named constants do not change them
+    from ..core import sym_return
+    from ..consteval import cnorm, env_of
 
-    pd, pe = parts(d), parts(e)
-    okR = pd.get("R") == pe.get("R") == "(cipher + R) * 52845 + 22719 & 65535"
-    ctx.ob("F22-eexec", mod.rel + ":<module>", f"key update decrypt[{pd.get('R')}] encrypt[{pe.get('R')}]", okR, "" if okR else "key schedule differs between directions or from the Type 1 constants (c1=52845, c2=22719, 16-bit key, ciphertext feedback)")
-    okx = pd.get("plain") == "(cipher ^ R >> 8) & 255" and pe.get("cipher") == "(plain ^ R >> 8) & 255"
-    ctx.ob("F22-eexec", mod.rel + ":<module>", f"xor step decrypt[plain = {pd.get('plain')}] encrypt[cipher = {pe.get('cipher')}]", okx, "" if okx else "xor steps are not mirror images")
-    # order: in encrypt the key update must use the *cipher* computed in this step (assignment order)
-    order_e = [norm(st.targets[0]) for st in e.node.body if isinstance(st, ast.Assign)]
-    order_d = [norm(st.targets[0]) for st in d.node.body if isinstance(st, ast.Assign)]
-    ok = order_e == ["plain", "cipher", "R"] and order_d == ["cipher", "plain", "R"]
-    ctx.ob("F22-eexec", mod.rel + ":<module>", f"statement order encrypt={order_e} decrypt={order_d}", ok)
+    def summary(f):
+        ps = [a.arg for a in f.node.args.args]
+        if len(ps) != 2:
+            return None, None
+        r = sym_return(repo, f, 2, {ps[0]: ast.Name("b", ast.Load()), ps[1]: ast.Name("K", ast.Load())})
+        if not isinstance(r, ast.Tuple) or len(r.elts) != 2:
+            return None, None
+        return cnorm(r.elts[0], env_of(f.node)), cnorm(r.elts[1], env_of(f.node))
+
+    (dx, dk), (ex, ek) = summary(d), summary(e)
+    XOR = "(byteord(b) ^ K >> 8) & 255"
+    okx = dx == ex == f"bytechr({XOR})"
+    ctx.ob("F22-eexec", mod.rel + ":<module>", f"xor step decrypt[{dx}] encrypt[{ex}]", okx, "" if okx else "xor steps are not mirror images: out = (in ^ (key >> 8)) & 0xFF in both directions")
+    okR = dk == "(byteord(b) + K) * 52845 + 22719 & 65535"
+    ctx.ob("F22-eexec", mod.rel + ":<module>", f"decrypt key update [{dk}]", okR, "" if okR else "key schedule differs from the Type 1 constants (c1=52845, c2=22719, 16-bit key) or does not feed back the ciphertext byte")
+    oke = ek == f"(({XOR}) + K) * 52845 + 22719 & 65535"
+    ctx.ob("F22-eexec", mod.rel + ":<module>", f"encrypt key update [{ek}]", oke, "" if oke else "the encrypt key update must use the cipher byte produced in this step (ciphertext feedback) with the same constants")
 
 
 def f22_time(ctx, repo):
@@ -1282,8 +1374,18 @@ def f22_sstruct(ctx, repo):
     imp = (mod.imports.get("fi2fl"), mod.imports.get("fl2fi"))
     ok = imp == ("fontTools.misc.fixedTools.fixedToFloat", "fontTools.misc.fixedTools.floatToFixed")
     ctx.ob("F22-sstruct", mod.rel + ":<module>", f"fi2fl/fl2fi bound to {imp}", ok)
-    it = [norm(n.iter) for f in (p, u) for n in ast.walk(f.node) if isinstance(n, ast.For)]
-    ok = it == ["names.keys()", "enumerate(names.keys())"]
+    def base(e):
+        """what a for-loop iterates, with order-preserving wrappers removed: enumerate(x), list(x), x.keys(), x.items()"""
+        while True:
+            if isinstance(e, ast.Call) and isinstance(e.func, ast.Name) and e.func.id in ("enumerate", "list", "iter", "tuple") and e.args:
+                e = e.args[0]
+            elif isinstance(e, ast.Call) and isinstance(e.func, ast.Attribute) and e.func.attr in ("keys", "items") and not e.args:
+                e = e.func.value
+            else:
+                return norm(e)
+
+    it = [base(n.iter) for f in (p, u) for n in ast.walk(f.node) if isinstance(n, ast.For)]
+    ok = it == ["names", "names"]
     ctx.ob("F22-sstruct", mod.rel + ":<module>", f"field iteration {it}", ok, "" if ok else "pack and unpack no longer iterate the same ordered name table")
     fm = fold(mod.const("_fixedpointmappings"))
     ok = fm == {8: "b", 16: "h", 32: "l"}
